@@ -206,6 +206,25 @@ func (t *Type) infer() *Type {
 	return &t2
 }
 
+// mergeFixed returns the type that the equal types t1 and t2 stand for,
+// fixed at every nesting level at which either of them is fixed.
+func mergeFixed(t1, t2 *Type) *Type {
+	if t1.Fixed || t1.Sub == nil || t2.Sub == nil {
+		return t1
+	}
+	if t2.Fixed {
+		return t2
+	}
+	sub := mergeFixed(t1.Sub, t2.Sub)
+	if sub == t1.Sub {
+		return t1
+	}
+	if sub == t2.Sub {
+		return t2
+	}
+	return &Type{Name: t1.Name, Sub: sub}
+}
+
 func combineTypes(types []*Type) *Type {
 	combinedT := types[0]
 	for _, t := range types[1:] {
@@ -214,6 +233,10 @@ func combineTypes(types []*Type) *Type {
 				// An element with the type of a variable makes the
 				// combined type fixed, whichever element comes first.
 				combinedT = t
+			} else if !combinedT.Fixed {
+				// Neither is a variable's type as a whole, but an element
+				// type further down may be, e.g. [[[1]] [a]].
+				combinedT = mergeFixed(combinedT, t)
 			}
 			continue
 		}
